@@ -211,10 +211,11 @@ class G:
             if i > 0 and pf["hierarchy"] and r.random() < 0.6:
                 father = r.choice(self.types)[0]
             self.types.append([self.name("T", i), father])
-        budget = pf["max_objects"]
+        budget = max(pf["max_objects"], len(self.types))  # every type gets at least one object (H15: empty types)
         oi = 0
         for t, _ in self.types:
-            k = r.choice([1, 1, 2]) if budget > 0 else 0
+            k = r.choice([1, 1, 2])
+            k = max(1, min(k, budget - (len(self.types) - 1 - [x[0] for x in self.types].index(t))))
             for _ in range(min(k, budget)):
                 self.objects.append([self.name("o", oi), ["user", t]])
                 oi += 1
@@ -285,8 +286,29 @@ class G:
         goals = [self.boolean(1, {}) for _ in range(r.choice([1, 1, 2]))]
         invariants = []
         if r.random() < pf["invariants"]:
-            invariants.append(self.boolean(1, {}))
             self.feat.add("invariant")
+            # half of the invariants are built to hold initially and to be breakable by an effect
+            known = {str(fe): (fe, v) for fe, v in init}
+            for f in self.fluents:
+                if f["default"] is not None:
+                    for args in self.ground_args(f):
+                        fe = ["f", f["name"]] + [["o", a] for a in args]
+                        known.setdefault(str(fe), (fe, f["default"]))
+            cands = sorted(known.values(), key=str)
+            if cands and r.random() < 0.6:
+                fe, v = r.choice(cands)
+                if v[0] == "b":
+                    invariants.append(fe if v[1] else ["not", fe])
+                elif v[0] in ("i", "r"):
+                    c = Fraction(v[1])
+                    if r.random() < 0.5:
+                        invariants.append(["le", fe, ["r", str(c + r.choice([0, 1, 2]))]])
+                    else:
+                        invariants.append(["ge", fe, ["r", str(c - r.choice([0, 1, 2]))]])
+                else:
+                    invariants.append(["eq", fe, v] if r.random() < 0.5 else self.boolean(1, {}))
+            else:
+                invariants.append(self.boolean(1, {}))
         rec = {
             "name": "gen",
             "types": self.types,
